@@ -21,6 +21,7 @@ import YtkProofs.HeapBuild
 import YtkProofs.HeapBuilderRun
 import YtkProofs.HeapBuilderHist
 import YtkProofs.PlainSpec
+import YtkProofs.FuncsDomBuilder
 
 namespace Ytk.C03
 
@@ -1092,5 +1093,49 @@ theorem nonvacuous_run_eq_plain :
   decide +kernel
 
 end plain
+
+end Ytk.C03
+
+/-! ## xlate7d: the REGENERATED translation of the ListBuilder methods of dom/list.go (Generated/FuncsDom.lean)
+
+  `Append`, `Clear`, `MustSet`, `Set` mutate their receiver and return it; the translation threads the receiver.  The
+  theorems prove the hand-written list primitives of the model — and with them the DomPrelude primitives `GoDom.append`
+  / `GoDom.set` that every other translated function calls — EQUAL to the translation of their Go source. -/
+namespace Ytk.C03
+open Ytk.Generated
+
+theorem listBuilderAppend_generated_eq_model (l : List Node) (x : Node) :
+    FuncsDom.listBuilderAppend l x = .ok (listAppend l x) := rfl
+
+theorem listBuilderClear_generated_eq_model (l : List Node) : FuncsDom.listBuilderClear l = .ok [] := rfl
+
+/-- MustSet: the panic of the bounds test, else the element assignment -/
+theorem listBuilderMustSet_generated_eq_model (l : List Node) (i : Nat) (x : Node) :
+    FuncsDom.listBuilderMustSet l i x = (match listMustSet l i x with
+      | .ok r => .ok r
+      | _ => .panic) := by
+  rw [FuncsDomBuilder.listBuilderMustSet_generated_eq_model]
+  cases listMustSet l i x <;> rfl
+
+/-- Set(index, item): the padding loop with `Append(nilLeaf)` and the element assignment — the model's `listSet`,
+    for every list and every index; never panics -/
+theorem listBuilderSet_generated_eq_model (l : List Node) (i : Nat) (x : Node) :
+    FuncsDom.listBuilderSet l i x = .ok (listSet l i x) :=
+  FuncsDomBuilder.listBuilderSet_generated_eq_model l i x
+
+theorem nonvacuous_listBuilder_generated :
+    FuncsDom.listBuilderSet [.leaf ⟨"int", "1"⟩] 3 (.leaf ⟨"int", "9"⟩)
+      = .ok [.leaf ⟨"int", "1"⟩, Node.null, Node.null, .leaf ⟨"int", "9"⟩] ∧
+    FuncsDom.listBuilderMustSet [.leaf ⟨"int", "1"⟩] 1 (.leaf ⟨"int", "9"⟩) = .panic ∧
+    FuncsDom.listBuilderMustSet [.leaf ⟨"int", "1"⟩] 0 (.leaf ⟨"int", "9"⟩) = .ok [.leaf ⟨"int", "9"⟩] := by
+  decide +kernel
+
+/-- dom.ListNode(items...) -/
+theorem ListNode_generated_eq_model (items : List Node) : FuncsDom.ListNode items = .ok items :=
+  FuncsDomBuilder.ListNode_generated_eq_model items
+
+/-- ContainerBuilder.Remove(name) is the model's `remove` (the definition behind `GoDom.remove`) -/
+theorem containerBuilderRemove_generated_eq_model (c : AMap Node) (name : String) :
+    FuncsDom.containerBuilderRemove c name = .ok (remove c name) := rfl
 
 end Ytk.C03
